@@ -5,16 +5,42 @@ From V.c09 Require Import C09Model C09Spec C09BaseProofs C09SttsProofs C09StscPr
 From V.c10 Require Import C10Model C10RlProofs C10StscProofs C10ConsProofs C10LayoutProofs C10TermProofs C10E2EProofs
   C10C09Proofs C10EndProofs.
 
-Lemma trak_ends_init : forall traks et ets ts0, trak_ends traks et ets = Ok ts0 ->
+Lemma trak_ends_from_init : forall traks seen et ets ts0, trak_ends_from seen traks et ets = Ok ts0 ->
   Forall (fun t => ts_next t = 1 /\ ts_offsets t = []) ts0 /\ map ts_tb ts0 = map ti_tb traks /\ map ts_id ts0 = map ti_id traks.
 Proof.
-  induction traks as [|t r IH]; intros et ets ts0 H; cbn [trak_ends] in H.
+  induction traks as [|t r IH]; intros seen et ets ts0 H; cbn [trak_ends_from] in H.
   - injection H as <-. repeat split; constructor.
-  - destruct (find_trak_end (ti_tb t) (ti_ts t) et ets) as [e| | |]; try discriminate. cbn [rbind] in H.
-    destruct (trak_ends r et ets) as [r'| | |] eqn:Er; try discriminate. cbn [rbind] in H. injection H as <-.
-    destruct (IH et ets r' Er) as [A [B C]]. split; [constructor; [split; reflexivity|exact A]|].
+  - destruct (existsb (N.eqb (ti_id t)) seen); [discriminate|].
+    destruct (find_trak_end (ti_tb t) (ti_ts t) et ets) as [e| | |]; try discriminate. cbn [rbind] in H.
+    destruct (trak_ends_from (ti_id t :: seen) r et ets) as [r'| | |] eqn:Er; try discriminate. cbn [rbind] in H. injection H as <-.
+    destruct (IH _ et ets r' Er) as [A [B C]]. split; [constructor; [split; reflexivity|exact A]|].
     cbn [map ts_tb ts_id]. rewrite B, C. split; reflexivity.
 Qed.
+
+Lemma trak_ends_init : forall traks et ets ts0, trak_ends traks et ets = Ok ts0 ->
+  Forall (fun t => ts_next t = 1 /\ ts_offsets t = []) ts0 /\ map ts_tb ts0 = map ti_tb traks /\ map ts_id ts0 = map ti_id traks.
+Proof. intros traks. exact (trak_ends_from_init traks []). Qed.
+
+(* findTrakEnds succeeded: the track IDs are pairwise distinct (repaired text) *)
+Lemma trak_ends_from_nodup : forall traks seen et ets ts0, trak_ends_from seen traks et ets = Ok ts0 ->
+  NoDup (map ti_id traks) /\ forall x, In x (map ti_id traks) -> ~ In x seen.
+Proof.
+  induction traks as [|t r IH]; intros seen et ets ts0 H; cbn [trak_ends_from] in H.
+  - split; [constructor|intros x []].
+  - destruct (existsb (N.eqb (ti_id t)) seen) eqn:Ex; [discriminate|].
+    destruct (find_trak_end (ti_tb t) (ti_ts t) et ets) as [e| | |]; try discriminate. cbn [rbind] in H.
+    destruct (trak_ends_from (ti_id t :: seen) r et ets) as [r'| | |] eqn:Er; try discriminate.
+    destruct (IH _ et ets r' Er) as [A B].
+    assert (Hns : ~ In (ti_id t) seen).
+    { intros Hin. assert (existsb (N.eqb (ti_id t)) seen = true); [|congruence].
+      apply existsb_exists. exists (ti_id t). split; [exact Hin|apply N.eqb_refl]. }
+    cbn [map]. split.
+    + constructor; [|exact A]. intros Hin. apply (B _ Hin). left. reflexivity.
+    + intros x [<-|Hx]; [exact Hns|]. intros Hin. apply (B _ Hx). right. exact Hin.
+Qed.
+
+Lemma trak_ends_distinct traks et ets ts0 : trak_ends traks et ets = Ok ts0 -> NoDup (map ti_id traks).
+Proof. intros H. exact (proj1 (trak_ends_from_nodup traks [] et ets ts0 H)). Qed.
 
 (* what holds of one track of the output *)
 Definition track_out (file outf : list N) (S h : N) (payload_len : N) (st : N * tables * N * N) (tb2 : tables) : Prop :=
@@ -139,18 +165,20 @@ Definition state_of (et ets : N) (t : trak_in) (s : trak_state) : Prop :=
   ts_id s = ti_id t /\ ts_tb s = ti_tb t /\
   exists tet, track_tet t et ets = Ok tet /\ ts_last_sample s = k_of (ti_tb t) tet.
 
-Lemma trak_ends_ok file : forall traks et ets ts0, Forall (trak_pre file et ets) traks -> trak_ends traks et ets = Ok ts0 ->
+Lemma trak_ends_from_ok file : forall traks seen et ets ts0, Forall (trak_pre file et ets) traks ->
+  trak_ends_from seen traks et ets = Ok ts0 ->
   Forall (static_ok file) ts0 /\ Forall cut_ok ts0 /\ Forall2 (state_of et ets) traks ts0.
 Proof.
-  induction traks as [|t r IH]; intros et ets ts0 Hpre H; cbn [trak_ends] in H.
+  induction traks as [|t r IH]; intros seen et ets ts0 Hpre H; cbn [trak_ends_from] in H.
   - injection H as <-. repeat split; constructor.
-  - inversion Hpre as [|? ? [Hst [Hdp [tet [Htet [Hlt Hk1]]]]] Hpre']; subst.
+  - destruct (existsb (N.eqb (ti_id t)) seen); [discriminate|].
+    inversion Hpre as [|? ? [Hst [Hdp [tet [Htet [Hlt Hk1]]]]] Hpre']; subst.
     pose proof Hst as [Hc [Hid [_ [Hoff Hfile]]]]. cbn [ts_tb ts_id] in *.
     destruct (trak_end_correct (ti_tb t) Hc Hdp (ti_ts t) et ets tet Htet Hlt Hk1)
       as [k [td [d [c [cnt [Hk [HkN [_ [_ [Hch [_ Hfe]]]]]]]]]]].
     rewrite Hfe in H. cbn [rbind fst snd ch_nr] in H.
-    destruct (trak_ends r et ets) as [r'| | |] eqn:Er; try discriminate. cbn [rbind] in H. injection H as <-.
-    destruct (IH et ets r' Hpre' Er) as [A [B C]].
+    destruct (trak_ends_from (ti_id t :: seen) r et ets) as [r'| | |] eqn:Er; try discriminate. cbn [rbind] in H. injection H as <-.
+    destruct (IH _ et ets r' Hpre' Er) as [A [B C]].
     assert (Hk1' : 1 <= k) by (rewrite Hk; exact Hk1).
     destruct (chunk_of_sample_correct (ti_tb t) Hc k ltac:(lia)) as [c' [Hc' [Hcr _]]].
     rewrite Hch in Hc'. injection Hc' as <-.
@@ -161,6 +189,10 @@ Proof.
     + constructor; [|exact C]. unfold state_of. cbn [ts_id ts_tb ts_last_sample]. split; [reflexivity|]. split; [reflexivity|].
       exists tet. split; [exact Htet|exact Hk].
 Qed.
+
+Lemma trak_ends_ok file : forall traks et ets ts0, Forall (trak_pre file et ets) traks -> trak_ends traks et ets = Ok ts0 ->
+  Forall (static_ok file) ts0 /\ Forall cut_ok ts0 /\ Forall2 (state_of et ets) traks ts0.
+Proof. intros traks. exact (trak_ends_from_ok file traks []). Qed.
 
 Definition total_bytes (traks : list trak_in) : N := sumN (map (fun t => sumN (sizes (ti_tb t))) traks).
 
